@@ -224,6 +224,7 @@ func C15(blk *hist.Block) []Finding {
 		}
 		amt, c := TrackerAmount(v.src)
 		if newlyReleased {
+			out = append(out, Finding{"COUNT", fmt.Sprintf("observed:released-type-%d", v.typ), ""})
 			if y < need(len(v.witnesses)) {
 				out = append(out, Finding{"C15", "C15/released-below-threshold", fmt.Sprintf("block %d: tracker %s (type %d) was released with %d success reports of %d recorded witnesses (more than two thirds = %d needed)", blk.H, name[:12], v.typ, y, len(v.witnesses), need(len(v.witnesses)))})
 			}
@@ -232,6 +233,7 @@ func C15(blk *hist.Block) []Finding {
 			}
 		}
 		if newlyFailed {
+			out = append(out, Finding{"COUNT", fmt.Sprintf("observed:failed-type-%d", v.typ), ""})
 			if n < need(len(v.witnesses)) {
 				out = append(out, Finding{"C15", "C15/failed-below-threshold", fmt.Sprintf("block %d: tracker %s (type %d) was failed with %d failure reports of %d recorded witnesses (%d needed)", blk.H, name[:12], v.typ, n, len(v.witnesses), need(len(v.witnesses)))})
 			}
